@@ -309,7 +309,7 @@ Section Feasible.
               (i0 : init (M := mat)) (fixed : list nat) (n_outer n_inner : nat) (zero : mat) (fs : list mat) (m : nat).
     Hypothesis run : constrained_cp dM op_c12 (zvalidate truthy n sp) msub madd E n i0 fixed n_outer n_inner zero = Ok fs.
     Hypothesis Hm : (m < length fs)%nat.
-    Hypothesis Hupd : init_computed i0 = true \/ (In m (modes_list n fixed) /\ (0 < n_outer)%nat).
+    Hypothesis Hupd : init_computed i0 = true \/ (In m (modes_list n fixed) /\ (0 < n_outer)%nat /\ (0 < n_inner)%nat).
 
     Theorem cp_nonneg s p : In (KNonNeg, s) sp -> zrequested truthy n s m p ->
       all_entries (fun a => 0 <= a) (nth m fs dM).
